@@ -7,8 +7,10 @@
    every node's usage grows by exactly the resources of the instances created on it (so failures leave no
    record, container or usage); every message is sent on the channel, in order, and then the channel is closed
    (cr_out: out w' = MClose :: rev ms ++ out w).  Fault positions are the faultable calls (store, resource
-   manager, engine, WAL, locks); a channel send is not a fault position.  C12_instance / C12_node are the per-instance and per-node statements it is
-   built from.  C12_messages_scenarios re-checks the boolean the harness evaluates on explicit scenarios.  Hypotheses: the plan is feasible for the plugin (every Alloc of it
+   manager, engine, WAL, locks); a channel send is not a fault position (C12_send_is_no_fault_position).
+   C12_instance / C12_plan are the per-instance and per-plan statements it is built from.
+   C12_messages_scenarios re-checks, for every fault position, the boolean the harness evaluates on the
+   implementation, on explicit scenarios.  Hypotheses: the plan is feasible for the plugin (every Alloc of it
    succeeds), its nodes exist and are distinct, no record/container of this op index exists yet. *)
 From Coq Require Import List ZArith.
 From Verif Require Import Base.Effects Calcium.World Calcium.Ops Calcium.Run Calcium.Sweeps
@@ -42,10 +44,15 @@ Proof. exact deploy_all_ms. Qed.
 Print Assumptions C12_plan.
 
 Theorem C12_messages_scenarios : forall w o, (w = busy3 \/ w = base3) -> In o create_ops ->
-  forall k, is_send_at (script_of o) (prep w o) k = false ->
-  c12_check (prep w o) o (fst (final (script_of o) (prep w o) (Some k))) = true.
-Proof. exact create_scenarios_all_k. Qed.
+  forall k, c12_check (prep w o) o (fst (final (script_of o) (prep w o) k)) = true.
+Proof. exact create_scenarios_every_k. Qed.
 Print Assumptions C12_messages_scenarios.
+
+(* the positions k range over the faultable calls only: no position is a channel send *)
+Theorem C12_send_is_no_fault_position : forall A (p : cprog A) w k c,
+  In c (calls_of p w k) -> is_faultable c = true.
+Proof. exact calls_faultable. Qed.
+Print Assumptions C12_send_is_no_fault_position.
 
 (* a check that holds for the fault-free run and at every call index of it holds for every k *)
 Theorem C12_all_positions : forall A (p : cprog A) w (chk : world -> A -> bool),
